@@ -1,25 +1,49 @@
-"""C08 — IPv4 fragment reassembly reconstructs the original datagram."""
+"""C08 — IPv4 fragment reassembly reconstructs the original datagram.
+
+Theorems: lean/TinsModel/Props/C08.lean (inside the hypothesis: refinement of a datagram-aware reference; arbitrary
+sessions: model_refines_policy, process_all_cases, never_from_incomplete_all, fragmented_cases, no_fault,
+interleave_independent_all, live_streams_*, late_duplicate_leaks) and Props/C08Wire.lean (end to end with the wire
+families' model of pdu_from_flag).  Oracles (lean/Driver/C08.lean, run on the implementation's output): the
+datagram-aware reference, the policy reference (every call of every history), history-level safety clauses."""
 import itertools, json, os, random, struct
 from vlib import core, corr
 
 AREA = "C08"
-MODULES = ["TinsModel.Props.C08", "TinsModel.Props.Limits.C08"]   # + the constants / limits tied to the source (translator/gen_limits.py)
-AUDIT = ["Audit/C08.lean", "Audit/LimitsC08.lean"]
+MODULES = ["TinsModel.Props.C08", "TinsModel.Props.C08Wire", "TinsModel.Props.Limits.C08"]   # + the constants / limits tied to the source (translator/gen_limits.py)
+AUDIT = ["Audit/C08.lean", "Audit/C08Wire.lean", "Audit/LimitsC08.lean"]
 LEVEL = "proof"
 HARNESS = "c08_reasm"
 HARNESS_FLAGS = ["-fno-access-control"]          # the harness prints IPv4Reassembler::streams_.size()
 CASE_START = ("case",)
 MANIFEST = dict(
-    text="Lean 4 theorems: a code-shaped executable model of IPv4Stream/IPv4Reassembler::process refines, for all "
-         "capture histories (any partitions at multiples of 8, any arrival order, duplicates, interleaving of datagrams "
-         "with different RFC 791 keys, unfragmented and non-IP packets, remove_stream/clear_streams), a reference "
-         "reassembler that knows which datagram every fragment belongs to; tied to the code by differential "
-         "correspondence under ASan/UBSan on wire packets built by an independent RFC 791 encoder, and by the Lean "
-         "reference itself run as an oracle on the implementation's output.",
+    text="Lean 4 theorems about a code-shaped executable model of IPv4Stream/IPv4Reassembler::process. (1) Inside the "
+         "property's hypothesis (any partitions at multiples of 8, any arrival order, duplicates, interleaving of datagrams "
+         "with different RFC 791 keys, unfragmented and non-IP packets, remove_stream/clear_streams) the model refines a "
+         "reference reassembler that knows which datagram every fragment belongs to. (2) For ARBITRARY sessions "
+         "(overlapping fragments, several lengths at one offset, conflicting last fragments, offsets + lengths beyond "
+         "65535, any packets whatsoever) the model refines a set-based policy reference (model_refines_policy); every call "
+         "goes one of five ways (process_all_cases); REASSEMBLED only from an exact cover of [0,total) by arrived fragments "
+         "of that key ending in a fragment without more-fragments, header + total <= 65535 "
+         "(never_from_incomplete_all, reassembled_bytes); the only exception is the upper parser's malformed_packet on "
+         "an exact cover; the corrupt path erases the stream and leaves the first header without payload; no fault; "
+         "independence of keys for arbitrary packets; at most one open stream per distinct key, and inside the hypothesis "
+         "exactly the datagrams with a non-empty incomplete episode (live_streams_exact), with the late-duplicate leak "
+         "stated and proved (late_duplicate_leaks). (3) End to end with the wire families (Props/C08Wire.lean): the parser "
+         "parameter instantiated by the proved model of Internals::pdu_from_flag (generated next-protocol table + "
+         "Wire.parseChain): it never faults and throws only malformed_packet, the IP constructor of an unfragmented "
+         "datagram dispatches with the same function, hence the reassembled packet carries the original datagram's "
+         "header fields and, above IP, the very layers parsing the original datagram yields (reassembly_end_to_end). "
+         "Tied to the code by differential correspondence under ASan/UBSan on wire packets built by an independent RFC "
+         "791 encoder, and by three Lean oracles run on the implementation's own output: the datagram-aware reference "
+         "(inside the hypothesis), the policy reference (every call of every history) and history-level safety clauses "
+         "(exact cover by arrived fragments, stream count from the implementation's own reports).",
     note="Trusted: Lean kernel + standard axioms; hand-written model tied by correspondence (harness/c08_reasm.cpp); "
-         "the upper-layer parser is a parameter of the theorems and is instantiated at run time for UDP, option-less TCP "
-         "and class-less protocols; generator coverage bounds what the tie sees.",
-    technique="Lean 4 proof (refinement of a reference reassembler over arbitrary histories) + model/impl correspondence",
+         "the upper-layer parser the driver runs is the wire families' model of pdu_from_flag (tied by the C01-C04 checks); "
+         "payloads generated for the correspondence are UDP, option-less TCP and class-less protocols; generator coverage "
+         "bounds what the tie sees.",
+    technique="Lean 4 proof (refinement of a datagram-aware reference inside the hypothesis and of a policy reference for "
+              "arbitrary sessions; invariants over all histories; composition with the wire parser model) + model/impl "
+              "correspondence + spec oracles on the implementation's output",
     design="DESIGN.md §6 C08")
 MANIFEST["note"] += (" Constants and limits of the C++ source that the model restates (translator/gen_limits.py -> Gen/Limits.lean: "
                      "compiled probe + preprocessed function bodies at named anchors) are tied to the model's numerals by the "
@@ -250,6 +274,118 @@ def gen_hole_masked_case(rng):
     return ops
 
 
+def _two_contents(rng, n, proto=253, nopt=0, df=False):
+    """two datagrams with the SAME reassembly key and different payloads: fragments cut from both conflict in content"""
+    p0 = bytes(rng.randrange(256) for _ in range(n))
+    p1 = bytes((b + 1 + rng.randrange(255)) % 256 for b in p0)            # differs in every byte
+    d0 = Dg("d0", 7, A, B, proto, 0, df, nopt, p0, [n])
+    d1 = Dg("d1", 7, A, B, proto, 0, df, nopt, p1, [n])
+    return d0, d1
+
+
+def pair_overlap_cases(rng):
+    """every pair of fragments [0, 8a) and [8(a-k), n) that overlap by 8k bytes (n = 64 and 61), both arrival orders,
+    same and conflicting content, with and without a third fragment that would make the byte count equal the total"""
+    out = []
+    for n in (64, 61):
+        for a in range(1, 8):
+            for k in range(1, a + 1):
+                for order in (0, 1):
+                    for conflict in (False, True):
+                        d0, d1 = _two_contents(rng, n)
+                        f1 = d0.frag((0, 8 * a), 10, False, True)
+                        f2 = (d1 if conflict else d0).frag((8 * (a - k), n - 8 * (a - k)), 11, True, False)
+                        seq = [f1, f2] if order == 0 else [f2, f1]
+                        # a duplicate offset with another length, then the fragments that would have been right
+                        seq.append(d0.frag((0, 8 * (a - k)), 12, False, True) if a > k else d0.frag((0, n), 12, False, False))
+                        out.append(["case", d0.op(), d1.op()] + seq)
+    return out
+
+
+def grid_cases(units, length, rng, limit=None, sample=None):
+    """small-scope exhaustive over hostile histories: every sequence of `length` fragments whose bounds lie on an
+    8-byte grid of `units` units, each with either more-fragments value and cut from either of two datagrams that share
+    the key but not the content (overlaps, same offset / different lengths, several last fragments, a last fragment
+    that ends before data already held, holes masked by overlaps)"""
+    n = 8 * units - 3
+    ivs = [(s, e) for s in range(units) for e in range(s + 1, units + 1)]
+    opts = [(s, e, mf, src) for (s, e) in ivs for mf in (True, False) for src in (0, 1)]
+    d0, d1 = _two_contents(rng, n)
+    head = ["case", d0.op(), d1.op()]
+
+    def mk(seq):
+        ops = list(head)
+        for i, (s, e, mf, src) in enumerate(seq):
+            ops.append((d0, d1)[src].frag((8 * s, min(8 * e, n) - 8 * s), 20 + i, False, mf))
+        return ops
+    if sample is not None:
+        return [mk([rng.choice(opts) for _ in range(rng.randint(2, length))]) for _ in range(sample)]
+    out = []
+    for seq in itertools.product(opts, repeat=length):
+        out.append(mk(seq))
+        if limit and len(out) >= limit:
+            break
+    return out
+
+
+def gen_conflicting_last_case(rng):
+    """two (or three) different last fragments, in any order, with the fragments below them; the datagram the
+    implementation may produce must still be an exact cover ending in a fragment without more-fragments"""
+    units = rng.randint(3, 7)
+    n = 8 * units
+    d0, d1 = _two_contents(rng, n, proto=rng.choice(RAW_PROTOS))
+    ends = sorted(rng.sample(range(1, units + 1), rng.randint(2, min(3, units))))
+    frs = []
+    prev = 0
+    for e in ends:
+        s = rng.randint(prev, e - 1) if rng.random() < 0.5 else prev
+        frs.append((rng.choice([d0, d0, d1]), (8 * s, 8 * (e - s)), False))           # a "last" fragment ending at 8e
+        if s > 0 and rng.random() < 0.8:
+            frs.append((d0, (0, 8 * s), True))
+        prev = e
+    if rng.random() < 0.5:
+        frs.append((d0, (0, 8), True))
+    rng.shuffle(frs)
+    return ["case", d0.op(), d1.op()] + [d.frag(p, rng.randrange(256), rng.random() < 0.5, mf) for d, p, mf in frs]
+
+
+def gen_same_offset_case(rng):
+    """fragments of different lengths (and contents) at one offset; later the fragments that complete either reading"""
+    units = rng.randint(2, 6)
+    n = 8 * units - rng.choice([0, 0, 5])
+    d0, d1 = _two_contents(rng, n, proto=rng.choice(RAW_PROTOS))
+    s = rng.randrange(units)
+    e1, e2 = rng.sample(range(s + 1, units + 2), 2) if units - s >= 1 else (units, units + 1)
+    e1, e2 = min(e1, units), min(e2, units)
+    cut = lambda a, b: (8 * a, min(8 * b, n) - 8 * a)
+    frs = [(d0, cut(s, e1), 8 * e1 < n), (rng.choice([d0, d1]), cut(s, max(e2, s + 1)), 8 * e2 < n)]
+    rest = [(d0, cut(0, s), True)] if s > 0 else []
+    for e in {e1, e2}:
+        if e < units:
+            rest.append((d0, cut(e, units), False))
+    rng.shuffle(rest)
+    if rng.random() < 0.5:
+        frs.reverse()
+    seq = frs + rest if rng.random() < 0.6 else rest + frs
+    return ["case", d0.op(), d1.op()] + [d.frag(p, rng.randrange(256), False, mf) for d, p, mf in seq if p[1] > 0]
+
+
+def oversize_cases(rng):
+    """offset + length beyond what an IPv4 datagram can hold: header + total on both sides of 65535 (with and without
+    options), the last fragment at the highest offset 65528, and far beyond"""
+    out = []
+    for nopt, total in [(0, 65515), (0, 65516), (1, 65511), (1, 65512), (0, 65528 + 40), (0, 65535), (2, 65600)]:
+        payload = bytes(rng.randrange(256) for _ in range(total))
+        cuts = [0, 8 * rng.randint(1, 4000), 8 * rng.randint(4001, 8000), 65504 if total > 65504 else 8 * 8100, total]
+        cuts = sorted(set(c for c in cuts if c <= total))
+        lens = [b - a for a, b in zip(cuts, cuts[1:])]
+        d = Dg("d0", 9, A, B, 253, 0, False, nopt, payload, lens)
+        ev = list(d.pieces)
+        rng.shuffle(ev)
+        out.append(["case", d.op()] + [d.frag(p, 64, False) for p in ev] + [d.frag(ev[0], 64, False)])
+    return out
+
+
 def kf_witness_case():
     """the Lean refutation witness `Tins.Props.C08.kfEvs` (key_reuse_refines_fails), replayed on the real code"""
     old = Dg("d0", 7, 1, 2, 253, 0, False, 0, bytes(range(16)), [8, 8])
@@ -259,7 +395,7 @@ def kf_witness_case():
 
 
 def regression_cases():
-    """one deterministic case per fixed defect (KF-C08-2..5)"""
+    """one deterministic case per fixed defect (KF-C08-2..6)"""
     p = bytes(range(1, 17))
     q = bytes(range(101, 117))
     out = []
@@ -273,6 +409,11 @@ def regression_cases():
     d = Dg("d0", 7, A, B, 6, 0, False, 0, p, [8, 8])                 # 16 bytes of "TCP": allocate_pdu throws
     out.append(["case", d.op(), d.frag((0, 8), 64, False), d.frag((8, 8), 64, False), d.frag((8, 8), 64, False),
                 d.frag((0, 8), 64, False)])
+    # KF-C08-6: header + total = 65536 (a last fragment of 4 bytes at offset 65512): dropped as corrupt, not reassembled
+    big = bytes((i * 7 + 3) % 256 for i in range(65516))
+    d = Dg("d0", 9, A, B, 253, 0, False, 0, big, [32768, 32744, 4])
+    out.append(["case", d.op(), d.frag((0, 32768), 64, False), d.frag((65512, 4), 64, False), d.frag((32768, 32744), 64, False),
+                d.frag((65512, 4), 64, False)])
     return out
 
 
@@ -381,7 +522,19 @@ def run(chk):
         go([gen_valid_case(rng) for _ in range(min(20000, n_valid - i))])
     go([gen_valid_case(rng, max_len=3000, max_pieces=40, max_dg=3) for _ in range(40 if quick else 600)])
     go([gen_valid_case(rng, max_len=65515, max_pieces=60, max_dg=2) for _ in range(3 if quick else 60)])
-    # 4. hostile histories (model/implementation correspondence)
+    # 4. hostile histories (model/implementation correspondence + the safety oracle for arbitrary histories)
+    go(pair_overlap_cases(rng))
+    go(oversize_cases(rng)[:(3 if quick else 7)])
+    go(grid_cases(4, 2, rng))                                                       # exhaustive: 40^2 sequences
+    if quick:
+        go(grid_cases(5, 5, rng, sample=3000))
+    else:
+        gc = grid_cases(4, 3, rng)                                                  # exhaustive: 40^3 sequences
+        for i in range(0, len(gc), 20000):
+            go(gc[i:i + 20000])
+        go(grid_cases(6, 6, rng, sample=60000))
+    go([gen_conflicting_last_case(rng) for _ in range(400 if quick else 8000)])
+    go([gen_same_offset_case(rng) for _ in range(400 if quick else 8000)])
     go([gen_hole_masked_case(rng) for _ in range(300 if quick else 5000)])
     n_host = 3000 if quick else 80000
     for i in range(0, n_host, 20000):
@@ -398,12 +551,19 @@ def run(chk):
         "std::map order is not observable through IPv4Reassembler's interface; streams_ is modelled as an association list",
         "IP options are modelled as an opaque count that is copied with the header (NOOP options on the wire)",
         "key re-use is only specified after the earlier datagram was completed (no timers in the API)",
+        "outside the property's hypothesis (overlapping / conflicting fragments) the expected behaviour is the documented "
+        "policy of the class (first fragment at an offset wins, RFC 791 TDL from the most recent last fragment, exact cover "
+        "or drop): TinsModel/Reassembly/Policy.lean; the property itself only demands the safety clauses",
+        "no user-registered PDU allocator for IP protocols (Internals::allocate<IP> is not consulted by allocate_pdu anyway)",
     ]
     chk.trusted += ["correspondence harness harness/c08_reasm.cpp (own RFC 791 encoder) + generators in checks/C08.py",
                     "g++ 12 / ASan+UBSan build of the repo working tree; harness built with -fno-access-control to read streams_.size()"]
     chk.extra["modelled_not_proved"] = [
-        "the `corrupt` path of process() (overlapping fragments whose byte count equals the total): correspondence only",
-        "upper-layer parsing (pdu_from_flag) is a parameter of the theorems; UDP/TCP/raw instance checked by correspondence",
+        "the bytes the reassembled upper layer re-serialises to are compared by correspondence for UDP / option-less TCP / "
+        "class-less protocols only (the theorems speak about the layers pdu_from_flag builds, Props/C08Wire.lean; "
+        "re-serialisation of parsed layers is C03)",
+        "IP options are an opaque word count in the reassembly model (copied with the first header); their contents in the "
+        "reassembled packet are compared by correspondence (NOOP options)",
     ]
     corr.finalize_cov(chk)
 
